@@ -436,6 +436,17 @@ def classify(name, params, lanes_expected=None):
         else:
             args[idx] = "f.s%s" % fld if p["type"] == "uint64_t" else "(%s)f.s%s" % (p["type"], fld)
     assert all(x is not None for x in args)
+    # in-place forms: the result register triple IS the register triple of operand a (or b)
+    alias_args = {}
+    out_idx = [idx for idx, p in roles["out"] if p["atom"] in ("TRIPLE", "REG")]
+    if out_idx and len(out_idx) == len(roles["out"]):
+        for which, r in ((1, "a"), (2, "b")):
+            rp = roles[r]
+            if rp and all(p["atom"] in ("TRIPLE", "REG") for _, p in rp) and (len(rp) == 3 or rp[0][1]["atom"] == "TRIPLE"):
+                al = list(args)
+                for idx in out_idx:
+                    al[idx] = al[idx].replace("f.%sc" % W, "f.%s%s" % (W, r))
+                alias_args[which] = al
 
     sig_types = ", ".join(p["ptype"] for p in ps)
     ident = "%s.%s" % (name, hashlib.sha1(("%s(%s)" % (name, sig_types)).encode()).hexdigest()[:6])
@@ -449,7 +460,7 @@ def classify(name, params, lanes_expected=None):
         "id": ident, "name": name, "op": op, "family": "%s_%s" % (op, suffix), "lanes": lanes,
         "signature": "void %s(%s)" % (name, ", ".join(p["text"] for p in ps)),
         "fnptr": "void (*)(%s)" % sig_types,
-        "out": out, "a": a, "b": b, "sums": sums, "call_args": args, "notes": notes,
+        "out": out, "a": a, "b": b, "sums": sums, "call_args": args, "alias_args": alias_args, "W": W, "notes": notes,
     }
     return e
 
@@ -598,7 +609,14 @@ def emit(entries, outdir, nfiles=4):
                 L.append("#ifdef __AVX512__")
             for e in grp:
                 e["_fn"] = "t%d_%s" % (i, e["id"].replace(".", "_"))
-                L.append("static void %s(Frame &f) { static_cast<%s>(&Goldilocks3::%s)(%s); }" % (e["_fn"], e["fnptr"], e["name"], ", ".join(e["call_args"])))
+                call = "static_cast<%s>(&Goldilocks3::%s)" % (e["fnptr"], e["name"])
+                body = ""
+                for which, al in sorted(e.get("alias_args", {}).items()):
+                    W, r = e["W"], "ab"[which - 1]
+                    vt = "__m512i" if W == "w" else "__m256i"
+                    body += "if (f.regalias == %d) { %s sv[3] = {f.%s%s[0], f.%s%s[1], f.%s%s[2]}; %s(%s); for (int i = 0; i < 3; i++) { f.%sc[i] = f.%s%s[i]; f.%s%s[i] = sv[i]; } return; } " % (
+                        which, vt, W, r, W, r, W, r, call, ", ".join(al), W, W, r, W, r)
+                L.append("static void %s(Frame &f) { %s%s(%s); }" % (e["_fn"], body, call, ", ".join(e["call_args"])))
             if pas:
                 L.append("#endif")
         L.append("")
